@@ -20,6 +20,10 @@ Definition n_tagvalue := 104.
 Definition n_grpent0 := 105.     (* group entries a plain "=" group rule can start with *)
 Definition n_occ3 := 106.
 Definition n_ctlname := 108.
+Definition n_tB := 109.          (* a type "(" C ")" K that the PEG cannot read as a group: C is a group, K a non-empty continuation *)
+Definition n_tG := 110.          (* the other types *)
+Definition n_K := 111.           (* continuation of a type after its first type2: [op type2] *("/" type1) *)
+Definition n_Kne := 112.         (* ... non-empty *)
 
 Definition bit (m : N) (k : N) : bool := N.testbit m k.
 
@@ -88,6 +92,30 @@ Definition tag_forms (ws general : bool) : list aexp :=
      ASeqs [L "#"; s; R n_DIGIT; AOpt (ASeqs [s; L "."; s; R n_uint])];
      ASeqs [L "#"; s; par]].
 
+(* Entries that begin with "(" under the crate's ordered choice (group_entry: the inline-group alternative is tried
+   first and commits when the parenthesised text reads as a group and the ")" follows):
+     "(" group ")"                      inline group, nothing of a type may follow
+     "(" tB ")" K                       the text inside is a type that does NOT read as a group, so the type reading is reached
+     "(" type ")" S ["^" S] "=>" ..     the look-ahead guard releases the member-key reading
+     "(" tB ")" op type2 S ["^" S] "=>" ..
+   where tB = "(" tG ")" Kne: a parenthesised group-readable type followed by an operator or a type choice. *)
+Definition paren_forms (occ : aexp) : list aexp :=
+  let arrow := ASeqs [S_; AOpt (ASeqs [L "^"; S_]); L "=>"; S_; R n_type] in
+  [ASeqs [occ; L "("; S_; R n_group; S_; L ")"];
+   ASeqs [occ; L "("; S_; R n_tB; S_; L ")"; R n_K];
+   ASeqs [occ; L "("; S_; R n_type; S_; L ")"; arrow];
+   ASeqs [occ; L "("; S_; R n_tB; S_; L ")"; S_; AAlts [R n_rangeop; R n_ctlop]; S_; R n_type2; arrow]].
+Definition paren_aux : cfg :=
+  let not_paren := ALook (fun r => negb (starts (N.eqb 40) r)) in
+  let alts := AStar (ASeqs [S_; L "/"; S_; R n_type1]) in
+  [(n_K, ASeqs [AOpt (ASeqs [S_; AAlts [R n_rangeop; R n_ctlop]; S_; R n_type2]); alts]);
+   (n_Kne, AAlts [ASeqs [S_; AAlts [R n_rangeop; R n_ctlop]; S_; R n_type2; alts];
+                  ASeqs [S_; L "/"; S_; R n_type1; alts]]);
+   (n_tB, ASeqs [L "("; S_; R n_tG; S_; L ")"; R n_Kne]);
+   (n_tG, AAlts [ASeqs [not_paren; R n_type];
+                 ASeqs [L "("; S_; R n_type; S_; L ")"];
+                 ASeqs [L "("; S_; R n_tB; S_; L ")"; R n_K]])].
+
 Definition variant (m : N) : cfg :=
   if m =? 0 then abnf_spec else
   let g0 := abnf_spec in
@@ -130,10 +158,10 @@ Definition variant (m : N) : cfg :=
               ++ [(n_occ3, AAlts [L "?"; L "+"; ASeqs [L "*"; AOpt (R n_uint)]]);
                   (n_grpent0, AAlts [ASeqs [R n_occ3; S_; np; AOpt (ASeqs [R n_memberkey; S_]); R n_type];
                                      ASeqs [R n_occ3; S_; np; R n_notbytes; R n_groupname; AOpt (R n_genericarg)];
-                                     (if bit m d_paren_entry
-                                      then ASeqs [R n_occ3; S_; L "("; S_; R n_type; S_; L ")"; S_; AOpt (ASeqs [L "^"; S_]); L "=>"; S_; R n_type]
-                                      else AFail);
-                                     ASeqs [AOpt (ASeqs [R n_occ3; S_]); L "("; S_; R n_group; S_; L ")"];
+                                     (* without an occurrence indicator a parenthesised TYPE commits to the type rule *)
+                                     ASeqs [L "("; S_; R n_group; S_; L ")"];
+                                     AAlts (if bit m d_paren_entry then paren_forms (ASeqs [R n_occ3; S_])
+                                            else [ASeqs [R n_occ3; S_; L "("; S_; R n_group; S_; L ")"]]);
                                      ASeqs [R n_groupname; AOpt (R n_genericarg)]])]
             else g5 in
   (* byte strings *)
@@ -185,10 +213,10 @@ Definition variant (m : N) : cfg :=
                let not_paren := ALook (fun r => negb (starts (N.eqb 40) r)) in
                override n_grpent
                  ([ASeqs [occ; not_paren; AOpt (ASeqs [R n_memberkey; S_]); R n_type];
-                   ASeqs [occ; not_paren; R n_notbytes; R n_groupname; AOpt (R n_genericarg)];
-                   ASeqs [occ; L "("; S_; R n_group; S_; L ")"];
-                   ASeqs [occ; L "("; S_; R n_type; S_; L ")"; S_; AOpt (ASeqs [L "^"; S_]); L "=>"; S_; R n_type]]
+                   ASeqs [occ; not_paren; R n_notbytes; R n_groupname; AOpt (R n_genericarg)]]
+                  ++ paren_forms occ
                   ++ (if bit m d_implicit_ws then [ASeqs [occ; not_paren; R n_notbytes; R n_groupname; S_; R n_genericarg]] else [])) g11
+               ++ paren_aux
              else g11 in
   let g12 := if bit m d_escapes then
                g11 ++ [(n_SESC, ASeqs [AChr 92; AChr 117; ARepN 4 (R n_HEXDIG)]);
